@@ -306,7 +306,7 @@ impl<'a> Driver<'a> {
         // ... and what it shows now is what it shows after a close and reopen: nothing a peer sent
         // may leave the instance and its storage out of step (every 4th probe; the reopened
         // instance carries on)
-        if self.ctx.counters.get("usability_probes").copied().unwrap_or(0) % 4 == 0 {
+        if true {
             let before = observe(&mut self.t.core, 40);
             match ops::build_core(&self.t.world, None, true, CacheMode::None) {
                 Ok(Ok(c)) => {
